@@ -53,6 +53,12 @@ CHECKS.update({
             "§3-C10", "bounded restatement: 3 idle re-offer rounds; one ingest loop per process"),
 })
 
+CHECKS.update({
+    "C06": (True, "fault_enumeration", "file-level crash images taken inside every commit hook of a seeded history, each booted with the real start_with_config; oracles on the rebuilt sync state, start-up apply scheduling, and convergence with a per-crash-point reference",
+            "Runtime monitor with fault enumeration: during a seeded history (local writes, complete/partial deliveries, buffered applies, clears) on a victim node, every hit of a commit hook (after the commit that stores data, before the in-memory update) yields a crash image (db + WAL copied while the single write connection is still held). Each sampled image is booted with the real start-up path and checked: acknowledged own transactions present (own head), no gap in own versions, nothing advertised as held that the live node did not hold after that commit, every completely buffered version scheduled (hook) and applied, and after real sync sessions with the origins the restarted node equals the reference merge of everything acknowledged up to the crash point.",
+            "§3-C06", "crash = process death on an intact OS/disk; images are in-process copies (a real-kill cross-check is future work); a lower claim after restart is allowed by the statement and only counted"),
+})
+
 NOT_YET = {
 }
 
